@@ -54,12 +54,45 @@ def start_line_probe():
     atexit.register(dump)
 
 
+def thread_pass(mod, cases, seq, timeout):
+    """re-run up to 160 deterministic cases of this shard in 4 threads with a very short switch interval; returns
+    [(index, concurrent result)] for those whose result differs from the sequential one"""
+    import concurrent.futures
+    import copy
+    ok = getattr(mod, 'thread_ok', lambda c: True)
+    idx = [i for i, c in enumerate(cases) if i < len(seq) and ok(c) and isinstance(seq[i], dict) and seq[i].get('out') not in ('HANG', 'HARNESS')][:160]
+    if len(idx) < 2:
+        return []
+    old = sys.getswitchinterval()
+    sys.setswitchinterval(1e-6)
+    diffs = []
+    signal.setitimer(signal.ITIMER_REAL, max(60.0, timeout * 4))
+    try:
+        def one(i):
+            try:
+                return i, mod.impl(copy.deepcopy(cases[i]))
+            except BaseException as ex:
+                return i, {'out': 'HARNESS', 'err': '%s: %s' % (type(ex).__name__, ex)}
+        with concurrent.futures.ThreadPoolExecutor(max_workers=4) as ex:
+            for rnd in range(2):
+                for i, r in ex.map(one, idx):
+                    if json.dumps(r, sort_keys=True) != json.dumps(seq[i], sort_keys=True):
+                        diffs.append([i, r])
+    except Hang:
+        diffs.append([-1, {'out': 'HANG'}])
+    finally:
+        signal.setitimer(signal.ITIMER_REAL, 0)
+        sys.setswitchinterval(old)
+    return diffs[:20]
+
+
 def main():
     start_line_probe()
     mod = importlib.import_module(sys.argv[1])
     cases = json.load(open(sys.argv[2]))
     timeout = float(sys.argv[4])
     signal.signal(signal.SIGALRM, on_alarm)
+    seq = []
     with open(sys.argv[3], 'w') as out:
         for c in cases:
             signal.setitimer(signal.ITIMER_REAL, timeout)
@@ -73,6 +106,12 @@ def main():
                 signal.setitimer(signal.ITIMER_REAL, 0)
             out.write(json.dumps(r) + '\n')
             out.flush()
+            seq.append(r)
+        # the same calls made concurrently from several threads must give what they gave one after the other (the
+        # library's functions share no state; a property module opts in with THREADS and names the cases with thread_ok)
+        if getattr(mod, 'THREADS', False):
+            diffs = thread_pass(mod, cases, seq, timeout)
+            out.write(json.dumps({'_thread_diffs': diffs}) + '\n')
 
 
 main()
